@@ -77,7 +77,9 @@ impl Vector {
             return false;
         }
         for i in 0..self.len() {
-            if rel_diff(self[i], other[i]) > tol {
+            let (a, b) = (self[i], other[i]);
+            // rel_diff compares magnitudes only: values of opposite sign are never close
+            if (a != 0. && b != 0. && a.signum() != b.signum()) || rel_diff(a, b) > tol {
                 return false;
             }
         }
